@@ -111,7 +111,7 @@ def parse_spec(path):
             m = re.match(r"@([A-Za-z\-]+)\s*(.*)$", line)
             cur = [m.group(1), m.group(2), [], ln]
             dirs.append(cur)
-        elif line.startswith("#") and cur is None:
+        elif line.startswith("#"):
             continue
         else:
             if cur is None:
